@@ -12,9 +12,11 @@ deterministic scheduler).
 
 from __future__ import annotations
 
+import contextlib
 import copy
 import copyreg
 import math
+import os
 import json as json_mod
 import types
 
@@ -121,6 +123,29 @@ class TableMonitor:
 
         cls.__enter__, cls.__exit__ = __enter__, __exit__
         cls._verif_wrapped = True
+        self._cls, self._orig, self._wrapped = cls, (orig_enter, orig_exit), (__enter__, __exit__)
+
+    @contextlib.contextmanager
+    def suspended(self):
+        """Run the block on the library's own __enter__ / __exit__: the depth-tracking wrappers cost a stack frame each, which
+        matters to workloads that exhaust the stack (the table comparison does not depend on them)."""
+        if not getattr(self, "_cls", None):
+            yield
+            return
+        import threading
+
+        self._cls.__enter__, self._cls.__exit__ = self._orig
+        # (likewise the cooperative lock the worker hands to library code: a real lock is taken without a Python frame)
+        inst = getattr(self._cls, "__instance__", None)
+        coop = getattr(inst, "lock", None)
+        if coop is not None and hasattr(threading, "_verif_real_rlock"):
+            inst.lock = threading._verif_real_rlock()
+        try:
+            yield
+        finally:
+            self._cls.__enter__, self._cls.__exit__ = self._wrapped
+            if coop is not None:
+                inst.lock = coop
 
     def check(self, baseline, what, features, case, **details):
         """Quiescent-point comparison of copyreg.dispatch_table with the baseline."""
@@ -225,7 +250,43 @@ def handwritten_ops(ns, rng):
         ("delattr", 1, lambda: delattr(Out(i=In(m=math)), "i")),
         ("raising_copy", 2, lambda: o.transform_i(lambda v: (_ for _ in ()).throw(ValueError("user callback raised during helper")))),
         ("raising_nonconf", 1, lambda: o.with_i(5)),
+        # a copy that fails for want of stack (no fault injected), started from several stack depths: the protection is
+        # released on the way out with hardly any stack left
+        ("raising_stack_exhaustion", 3, lambda: _exhaust_stack(In)),
     ]
+
+
+def _before_release(fired_at):
+    """Is the statement at which the fault was injected one of those __exit__ executes before its release has begun
+    (taking the lock, reading the count, entering the try block)? Decided on the statement's text, not its position."""
+    import linecache
+
+    text = linecache.getline(os.path.join(os.path.realpath(REPO_ROOT), "spec_classes", fired_at[0]), fired_at[1]).strip()
+    return text in ("with self.lock:", "refcount = self.refcount - 1", "try:")
+
+
+def _exhaust_stack(In):
+    import sys
+
+    chain = In(m=math)
+    for _ in range(sys.getrecursionlimit()):  # linked by hand: the constructor would copy (and fail) on the way
+        nxt = In()
+        nxt.__dict__["m"] = chain
+        chain = nxt
+
+    def at_depth(k):
+        if k:
+            return at_depth(k - 1)
+        return copy.deepcopy(chain)
+
+    failed = None
+    for k in range(7):
+        try:
+            at_depth(k)
+        except RecursionError as e:
+            failed = e
+    if failed is not None:
+        raise failed
 
 
 def run_histories(ctx, params):
@@ -245,7 +306,11 @@ def run_histories(ctx, params):
             for label, depth, fn in ops:
                 before = mon.entered
                 try:
-                    fn()
+                    if label == "raising_stack_exhaustion":
+                        with mon.suspended():
+                            fn()
+                    else:
+                        fn()
                     outcome = "returned"
                 except Exception as e:
                     outcome = f"raised:{type(e).__name__}"
@@ -259,6 +324,8 @@ def run_histories(ctx, params):
                 mon.check(baseline, f"{label} [{pre}]", {"pre": pre, "op": label, "depth": depth, "outcome": outcome, "phase": "plain"}, [pre, label, rep])
         # --- crash points on the hand-written workload ----------------------------------------------
         for label, depth, fn in handwritten_ops(ns, rng):
+            if label == "raising_stack_exhaustion":
+                continue  # (thousands of frames under line events: judged in the plain phase only)
             with fp.session():
                 try:
                     fn()
@@ -285,7 +352,7 @@ def run_histories(ctx, params):
                           {"pre": pre, "op": label, "depth": depth, "outcome": outcome, "phase": "line_failpoint", "fault_at": where,
                            "fault_in_protection_bookkeeping": fp.fired_at[2] in ("__enter__", "__exit__", "__new__", "__init__", "_release_to") and fp.fired_at[0].endswith("mutation.py"),
                            # statements of __exit__ that run before the release has begun (offset from the `def` line):
-                           "fault_before_release_begins": fp.fired_at[2] == "__exit__" and fp.fired_at[0].endswith("mutation.py") and fp.fired_at[3] <= 3},
+                           "fault_before_release_begins": fp.fired_at[2] == "__exit__" and fp.fired_at[0].endswith("mutation.py") and _before_release(fp.fired_at)},
                           [pre, label, "line", n])
         # --- grammar-generated histories ---------------------------------------------------------------
         for ci in range(params["gen_cases"]):
